@@ -423,6 +423,7 @@ class Check(PropertyCheck):
     theorems = [
         "LLBuild.NinjaLexer.C17_keywords_whole_word", "LLBuild.NinjaLexer.C17_identifier_maximal",
         "LLBuild.NinjaLexer.C17_high_bytes_ordinary", "LLBuild.NinjaLexer.C17_string_token_stops",
+        "LLBuild.NinjaLexer.C17_trivia_is_blank_or_continuation",
         "LLBuild.ShellEscape.C17_sh_roundtrip",
         "LLBuild.NinjaLexer.C19_ninja_lex_no_oob", "LLBuild.NinjaLexer.C19_ninja_lex_call_total",
         "LLBuild.NinjaLexer.C19_ninja_lex_terminates", "LLBuild.NinjaLexer.C19_tokens_tile",
@@ -454,14 +455,14 @@ class Check(PropertyCheck):
         groups["corpus_whole"] = [(m, d) for _n, d in files for m in ("n", "i", "p", "v", "npv", "nipv")]
         groups["truncation_every_prefix"] = gen_truncations(files, ["n", "p", "v", "npv"] if T else ["n", "npv", "v"])
         groups["keyword_near"] = gen_keyword_near()
-        groups["high_bytes"] = gen_high_bytes(rng, 20000 if T else 1500)
+        groups["high_bytes"] = gen_high_bytes(rng, 60000 if T else 1500)
         gm = []
-        for _ in range(30000 if T else 2500):
+        for _ in range(100000 if T else 2500):
             s = gen_manifest(rng)
             gm.append(("n", s))
             gm.append((rng.choice(["npv", "pv", "nv", "nipv", "p", "v", "i", "vn", "pn"]), s))
         groups["grammar"] = gm
-        groups["random_bytes"] = gen_random(rng, 100000 if T else 5000, 40 if T else 24)
+        groups["random_bytes"] = gen_random(rng, 400000 if T else 5000, 40 if T else 24)
         return groups
 
     def correspond_cls(self, ctx, res):
@@ -520,7 +521,7 @@ class Check(PropertyCheck):
 
     def correspond_shell(self, ctx, res):
         rng = ctx.rng
-        paths = gen_paths(rng, 20000 if ctx.thorough else 1500)
+        paths = gen_paths(rng, 60000 if ctx.thorough else 1500)
         (mrc, mout, merr), (hrc, hout, herr) = run_shesc(ctx.exe[HARNESS], paths)
         if hrc != 0 or len(hout) != len(paths):
             res.mismatches.append({"stream": "c17shesc", "input": "harness exit %d, %d/%d lines" % (hrc, len(hout), len(paths)), "impl": herr[-300:]})
@@ -586,7 +587,42 @@ class Check(PropertyCheck):
         res.extra["spec_validation"] = {"sh_words_vs_binsh_texts": inside, "spec_disagreements": spec_dis}
         res.samples.append({"path": repr(paths[300]), "escaped": hout[300]})
 
+    def replay(self, ctx, res, path):
+        """re-run the single input stored in a replay file through the real code, the model and the oracles"""
+        import json
+        d = json.load(open(path))
+        inp = (d.get("failure") or {}).get("input")
+        if isinstance(inp, dict) and "line" in inp:
+            modes, h = inp["line"].split(" ")
+            case = (modes, C.unhex(h))
+            (mrc, mout, merr), (hrc, hout, herr) = run_lex(ctx.exe[HARNESS], [case])
+            C.log("replay lex %s\n  impl : %s\n  model: %s" % (inp["line"], hout[0] if hout else herr[-200:], mout[0] if mout else merr[-200:]))
+            if hout:
+                res.oracle_failures += check_tokens(modes, case[1], hout[0])
+                if mout and mout[0] != hout[0]:
+                    res.mismatches.append({"stream": "c17lex", "input": inp["line"], "model": mout[0][:400], "impl": hout[0][:400]})
+            res.evaluations += 1
+            return True
+        if isinstance(inp, dict) and "path_hex" in inp:
+            p = C.unhex(inp["path_hex"])
+            (mrc, mout, merr), (hrc, hout, herr) = run_shesc(ctx.exe[HARNESS], [p])
+            esc = C.unhex(hout[0].split(" ")[0]) if hout and not hout[0].startswith("crash") else None
+            w = py_sh_words(esc) if esc is not None else None
+            r = binsh_words(esc) if w is not None else None
+            C.log("replay shellEscaped(%r) = %r ; /bin/sh reads it as %r" % (p, esc, r))
+            if r != [p]:
+                res.oracle_failures.append({"oracle": "sh-roundtrip", "first_byte": p[0] if p else None, "input": inp,
+                                            "what": "/bin/sh reads shellEscaped(%r) = %r as %r, not as the original path" % (p, esc, r)})
+            if mout and hout and mout[0] != hout[0]:
+                res.mismatches.append({"stream": "c17shesc", "input": C.hexs(p), "model": mout[0], "impl": hout[0]})
+            res.evaluations += 1
+            return True
+        return False
+
     def correspond(self, ctx, res):
+        if getattr(ctx, "replay_path", None) and self.replay(ctx, res, ctx.replay_path):
+            res.rule = "replay of one stored input"
+            return
         self.correspond_cls(ctx, res)
         self.correspond_lex(ctx, res)
         self.correspond_shell(ctx, res)
